@@ -496,6 +496,139 @@ async fn reqrep_case(rep: &mut Report, which: &str, n_cancel: usize, delay_ms: u
   let _ = tokio::time::timeout(Duration::from_secs(12), ctx.term()).await;
 }
 
+/// REQ (and DEALER-as-client of a stalled peer) send() dropped while it is blocked on a FULL pipe: a request that
+/// never reaches the peer must not leave the REQ demanding a recv() first. The peer stays stalled while the next
+/// call is tried, and drains afterwards, so whether the cancelled request was delivered is read off the peer's log.
+async fn req_backpressure_case(rep: &mut Report, tr: Transport, n_cancel: usize, big: bool) {
+  let ctx = util::new_ctx();
+  let req = ctx.socket(SocketType::Req).unwrap();
+  let rp = ctx.socket(SocketType::Rep).unwrap();
+  util::set_i32(&req, opt::SNDHWM, 1).await;
+  util::set_i32(&req, opt::RCVTIMEO, 40).await;
+  util::set_i32(&rp, opt::RCVHWM, 1).await;
+  util::set_i32(&rp, opt::RCVTIMEO, 400).await;
+  let ep = match util::bind_fresh(&rp, tr).await {
+    Ok(e) => e,
+    Err(_) => {
+      rep.inconclusive("bind failed".to_string());
+      return;
+    }
+  };
+  req.connect(&ep).await.unwrap();
+  tokio::time::sleep(Duration::from_millis(200)).await;
+  let payload = |i: usize| -> Vec<u8> {
+    let mut v = format!("q{:04}|", i).into_bytes();
+    if big {
+      v.resize(200_000, b'.');
+    }
+    v
+  };
+  let mut cancelled: Option<usize> = None;
+  let mut i = 0usize;
+  while i < 60 && cancelled.is_none() {
+    // dropped at its n-th Pending, or - if it blocks with fewer polls than that - by an outer timeout, which is
+    // how applications usually drop a blocked send
+    match tokio::time::timeout(Duration::from_millis(400), cancel(req.send(util::msg(payload(i), false)), n_cancel)).await {
+      Ok(CancelOutcome::Completed(Ok(()), _)) => {
+        // the peer is stalled: the reply cannot come; the timeout puts the REQ back to "may send" (C10's recorded finding)
+        let _ = req.recv().await;
+      }
+      Ok(CancelOutcome::Completed(Err(_), _)) => {}
+      Ok(CancelOutcome::Cancelled(_)) | Err(_) => cancelled = Some(i),
+    }
+    i += 1;
+  }
+  let Some(cid) = cancelled else {
+    rep.case(&("req_backpressure", tr, n_cancel, big, "never_pending"), true);
+    rep.count("req_backpressure_never_reached_pending", 1);
+    let _ = tokio::time::timeout(Duration::from_secs(12), ctx.term()).await;
+    return;
+  };
+  // next call while the peer is still stalled
+  util::set_i32(&req, opt::SNDTIMEO, 1500).await;
+  util::set_i32(&rp, opt::SNDTIMEO, 1500).await;
+  let next = tokio::time::timeout(Duration::from_millis(300), req.send(util::msg(payload(i), false))).await;
+  let rejected = matches!(next, Ok(Err(rzmq::ZmqError::InvalidState(_))));
+  // now the peer drains and answers everything
+  let mut seen: Vec<usize> = vec![];
+  while let Ok(m) = rp.recv_multipart().await {
+    if let Some(d) = m.iter().next().and_then(|f| f.data()) {
+      if d.len() >= 5 && d[0] == b'q' {
+        if let Ok(k) = String::from_utf8_lossy(&d[1..5]).parse::<usize>() {
+          seen.push(k);
+        }
+      }
+    }
+    let _ = rp.send(util::msg(b"a".to_vec(), false)).await;
+  }
+  rep.case(&("req_backpressure", tr, n_cancel, big, "cancelled"), true);
+  rep.count("req_backpressure_send_dropped_while_blocked", 1);
+  let delivered = seen.contains(&cid);
+  if rejected && !delivered {
+    rep.violation(
+      "cancel_leaves_req_send_stuck_or_loses_message|blocked_on_full_pipe".to_string(),
+      format!("REQ.send() #{} dropped at Pending #{} while blocked on a full pipe ({}, {}): the request never reached the peer, yet the next send() was rejected with InvalidState (the socket demands a recv() for a request that was not sent)", cid, n_cancel, tr.name(), if big { "200 kB requests" } else { "small requests" }),
+      json!({"cancelled_request": cid, "peer_saw": seen, "transport": tr.name()}),
+    );
+  }
+  // and the socket must be usable again for a fresh round trip
+  let rp2 = rp.clone();
+  let srv = tokio::spawn(async move {
+    for _ in 0..40 {
+      if let Ok(m) = rp2.recv_multipart().await {
+        let _ = rp2.send_multipart(m).await;
+      }
+    }
+  });
+  // clear owed / late replies of the abandoned requests, then one fresh round trip with a generous timeout
+  util::set_i32(&req, opt::RCVTIMEO, 300).await;
+  for _ in 0..80 {
+    if req.recv().await.is_err() {
+      break;
+    }
+  }
+  util::set_i32(&req, opt::RCVTIMEO, 3000).await;
+  let mut ok = false;
+  for k in 0..6 {
+    let marker = format!("fresh{}", k).into_bytes();
+    let sr = req.send(util::msg(marker.clone(), false)).await;
+    let dbg = std::env::var("VH_DEBUG").is_ok();
+    if dbg {
+      eprintln!("req_backpressure {} n={} cid={} seen={:?}: fresh{} send -> {:?}", tr.name(), n_cancel, cid, seen, k, sr.as_ref().map_err(util::err_kind));
+    }
+    match sr {
+      Ok(()) => {
+        let rr = req.recv().await;
+        if dbg {
+          eprintln!("   recv -> {:?}", rr.as_ref().map(|m| String::from_utf8_lossy(&m.data().unwrap_or(&[])[..m.size().min(8)]).into_owned()).map_err(util::err_kind));
+        }
+        // Which request the reply belongs to is not judged here: after requests were abandoned by RCVTIMEO the REQ
+        // hands out replies with a permanent lag (no correlation) - that is C10's recorded finding. C09 asks that the
+        // socket is not stuck: a send() followed by a recv() both succeed.
+        if rr.is_ok() {
+          ok = true;
+          break;
+        }
+      }
+      Err(_) => {
+        let rr = req.recv().await;
+        if dbg {
+          eprintln!("   (after failed send) recv -> {:?}", rr.as_ref().map(|m| m.size()).map_err(util::err_kind));
+        }
+      }
+    }
+  }
+  srv.abort();
+  if !ok && !(rejected && !delivered) {
+    rep.violation(
+      "cancel_leaves_req_send_stuck_or_loses_message|no_round_trip_after_cancel".to_string(),
+      format!("after REQ.send() #{} was dropped at Pending #{} while blocked on a full pipe, six attempts at a send()+recv() round failed ({})", cid, n_cancel, tr.name()),
+      json!({"cancelled_request": cid, "peer_saw": seen}),
+    );
+  }
+  let _ = tokio::time::timeout(Duration::from_secs(12), ctx.term()).await;
+}
+
 fn main() {
   let args = Args::parse();
   util::install_panic_watch();
@@ -572,6 +705,20 @@ fn main() {
         idx += 1;
         if args.mine(idx) {
           util::guarded(&rt, reqrep_case(&mut rep, which, n, d));
+        }
+      }
+    }
+  }
+  for tr in [Transport::Inproc, Transport::Tcp, Transport::Ipc] {
+    for n in (1..=3).chain(101..=102) {
+      idx += 1;
+      if args.mine(idx) {
+        let mut done = false;
+        util::guarded(&rt, async {
+          done = util::watchdog(90, req_backpressure_case(&mut rep, tr, n, tr != Transport::Inproc)).await.is_some();
+        });
+        if !done {
+          rep.inconclusive(format!("req_backpressure case over {} (cancel point {}) hit the 90 s watchdog", tr.name(), n));
         }
       }
     }
